@@ -29,3 +29,20 @@ Proof.
   destruct (stratifications_commute_on_compartments (normalise_strat s2) (normalise_strat s1) (m_comps m) (fun E => Hn (eq_sym E))) as [_ M'].
   split; [exact L|]. split; [exact M | exact M'].
 Qed.
+
+(* listing the strata of an ordinary or strain stratification in another order (age strata are sorted by the library):
+   the API produces a permutation of the compartments *)
+Lemma normalise_plain s : s_kind s <> SAge -> normalise_strat s = s.
+Proof. intro H. unfold normalise_strat. destruct (s_kind s); try reflexivity. contradiction. Qed.
+
+Theorem api_strata_order m s s' m1 m1' :
+  s_kind s <> SAge -> s_kind s' <> SAge ->
+  s_name s' = s_name s -> s_comps s' = s_comps s -> Permutation (s_strata s) (s_strata s') ->
+  stratify_with m s = Ok m1 -> stratify_with m s' = Ok m1' ->
+  Permutation (m_comps m1) (m_comps m1').
+Proof.
+  intros Hk Hk' Hn Hc Hp H H'.
+  destruct (stratify_with_inv _ _ _ H) as (C & _). destruct (stratify_with_inv _ _ _ H') as (C' & _). cbv zeta in *.
+  rewrite C, C', (normalise_plain s Hk), (normalise_plain s' Hk').
+  apply strata_order_permutes_compartments; assumption.
+Qed.
